@@ -138,7 +138,26 @@ def run_case(case, ctx):
     units = cfg.get("ram", 0) + cfg.get("disk", 0) + cfg.get("s", 0) \
         + cfg.get("bs", 0)
     if kind == "valid":
-        res = run_stream(cfg, passes=1, observe=None)
+        # "always yield a schedule" includes: after another schedule of the
+        # same class was abandoned half-way, or while one is paused
+        h = (sum(ord(ch) for ch in cfg_str(cfg))) % 6
+        keep = None
+        if h in (1, 2, 4) and cfg["cls"] not in ("SingleMemory", "None"):
+            from ..drivers import safe_stepper
+            other = dict(cfg)
+            if h == 2 and cfg["n"] >= 1:
+                other["n"] = cfg["n"] + 1
+            sib = safe_stepper(other, passes=1)
+            for _ in range(2 + h):
+                sib.step()
+            counters["abandoned_or_paused_siblings"] = 1
+            if h == 4:
+                keep = sib          # stays alive (paused) during the run
+            del sib
+        res = run_stream(cfg, passes=1, observe=None,
+                         protocol="for" if h == 3 else "next")
+        if keep is not None:
+            keep.run()
         if res.construct_error is not None:
             ck("valid_tuple_completes", False,
                f"{cfg_str(cfg)} is in the documented domain but "
